@@ -30,7 +30,7 @@ def gen_cases(tier, seed):
         impl = ["fft", "full"][i % 2]
         band = bands[(i // 2) % len(bands)]
         if i % 40 == 39:
-            out.append({"cls": "rayleigh-mean", "impl": impl, "N": int(rng.choice([128, 256])), "dt": 1e-9, "offset": 0.0, "band": [0.1, 0.3],
+            out.append({"cls": "rayleigh-mean", "impl": ["fft", "full"][(i // 40) % 2], "N": int(rng.choice([128, 256])), "dt": 1e-9, "offset": 0.0, "band": [0.1, 0.3],
                         "amp": "default", "uq": 1, "rms_mode": "rms"})
             continue
         N = int(rng.choice([16, 17, 64, 100, 257, 512, 1024, 4096])) if impl == "fft" else int(rng.choice([16, 17, 64, 100, 257]))
